@@ -108,6 +108,14 @@ CLAIMED.update({
               "handles are dataset-scoped (for_dataset(uri)), and session-cache keys must carry a content/incarnation discriminator "
               "rather than only a version or fragment number.",
               "Result equality under eviction is not decided.", "DESIGN.md 3 C38"),
+    "C17": _c("other", "value-origin + enum-arm analysis of version stamping in build_manifest",
+              "Only the clause 'new rows are stamped with the version being published': every version number handed to "
+              "build_version_meta in build_manifest derives from the current (re-loaded) manifest's version + 1 with 1 as the only "
+              "fallback and never from the transaction's read version; the Append / Overwrite / Update arms write the created-at and "
+              "last-updated metadata of new fragments from that stamp, under the stable-row-id guard. A necessary condition (a stamp "
+              "from the read version is wrong for every rebased commit); the per-row sequences and delta queries are not decided.",
+              "build_version_meta is trusted to stamp every physical row; carry-over through compaction is value-level.",
+              "DESIGN.md 3 C17"),
     "C42": _c("other", "descriptor-shape inventory + over-approximating origin analysis of persisted references",
               "Only the clause 'every persisted reference is root-relative': descriptors that point at other objects carry no "
               "location-typed or location-named field beyond the reviewed relative ones; the data-file path stored by every writer "
@@ -188,7 +196,6 @@ NOT_APPLICABLE = {
     "C14": "column values, join fill and field-id assignment are value-level; no shape rule is a useful necessary condition",
     "C15": "offset-to-address arithmetic over arbitrary deletion vectors is value-level",
     "C16": "needs an evaluator oracle over data; plan-shape invariants are not necessary conditions of result equality",
-    "C17": "per-row version numbers are computed from run-time sequences",
     "C22": "distances and top-k over data; floating-point results",
     "C23": "tokenisation, posting lists and BM25 scores are values",
     "C25": "equality of decoded and encoded Arrow data over schemas/pages/ranges is value-level (writer/reader dispatch agreement is claimed under C26)",
